@@ -175,14 +175,33 @@ theorem no_nan_unbounded (c : Cfg) (tg : Nat → Nat → Bool) (hmax : c.max2x2 
 
 /-! ### a single target: exact wherever it is within max_distance, NaN elsewhere -/
 
-theorem single_target_exact (c : Cfg) (tg : Nat → Nat → Bool) (hpl : c.Planar) (hsx : 0 < c.sx) (hsy : 0 < c.sy)
+/-- unbounded search, **any** metric (great-circle included): one target ⇒ every cell gets exactly its distance -/
+theorem single_target_exact_unbounded (c : Cfg) (tg : Nat → Nat → Bool) (hrefl : c.Refl) (hmax : c.max2x2 = none)
     (t0 : Nat × Nat) (ht0 : tg t0.1 t0.2 = true ∧ t0.1 < c.H ∧ t0.2 < c.W)
     (huniq : ∀ t : Nat × Nat, (tg t.1 t.2 = true ∧ t.1 < c.H ∧ t.2 < c.W) → t = t0)
     (r p : Nat) (hr : r < c.H) (hp : p < c.W) :
+    proxAt (run c tg) r p = some (dist2 c t0.1 t0.2 r p) := by
+  obtain ⟨d, hd⟩ := no_nan_unbounded c tg hmax t0 ht0 r p hr hp
+  obtain ⟨t, _, hT, hdist, _⟩ := sound c tg hrefl r p hr hp d hd
+  rw [huniq t hT] at hdist
+  rw [hd, hdist]
+
+/-- bounded search, stated for any metric under the hypothesis the proof needs: the distance to the target
+    does not grow when a cell moves towards the target's line or column (`hmono`, "path-monotone").
+    **Partial** with respect to the property text, which also names GREAT_CIRCLE: `hmono` holds for the planar
+    metrics (`single_target_exact`) but fails for great-circle distances on rasters spanning more than half the
+    globe in longitude, and there the real code does return NaN for cells within max_distance
+    (design_notes/C06.md, "Great-circle wrap-around"). -/
+theorem single_target_exact_partial (c : Cfg) (tg : Nat → Nat → Bool) (hrefl : c.Refl)
+    (t0 : Nat × Nat) (ht0 : tg t0.1 t0.2 = true ∧ t0.1 < c.H ∧ t0.2 < c.W)
+    (huniq : ∀ t : Nat × Nat, (tg t.1 t.2 = true ∧ t.1 < c.H ∧ t.2 < c.W) → t = t0)
+    (r p : Nat) (hr : r < c.H) (hp : p < c.W)
+    (hzero : dist2 c t0.1 t0.2 r p = 0 → t0.1 = r ∧ t0.2 = p)
+    (hmono : ∀ row q, adiff t0.1 row ≤ adiff t0.1 r → adiff t0.2 q ≤ adiff t0.2 p →
+      dist2 c t0.1 t0.2 row q ≤ dist2 c t0.1 t0.2 r p) :
     proxAt (run c tg) r p =
       (if withinMax c (dist2 c t0.1 t0.2 r p) then some (dist2 c t0.1 t0.2 r p) else none) ∧
     proxAt (run c tg) r p = exactCut c tg r p := by
-  have hrefl := planar_refl c hpl
   -- the exact nearest distance is the distance to the only target
   have hex : exact c tg r p = some (dist2 c t0.1 t0.2 r p) := by
     obtain ⟨e, he, _⟩ := exact_le c tg r p t0 ht0
@@ -207,14 +226,14 @@ theorem single_target_exact (c : Cfg) (tg : Nat → Nat → Bool) (hpl : c.Plana
       -- the cell is within max_distance of the target: the sweeps reach it
       have hne : ∃ d, proxAt (run c tg) r p = some d := by
         by_cases hself : dist2 c t0.1 t0.2 r p = 0
-        · obtain ⟨h1, h2⟩ := planar_sep c hpl hsx hsy _ _ _ _ hself
+        · obtain ⟨h1, h2⟩ := hzero hself
           exact ⟨0, run_zero c tg r p hr hp (by rw [← h1, ← h2]; exact ht0.1)⟩
         · -- every cell of the L-shaped path from the target is strictly below the 2·max² bound
           have hbound : ∀ row q, adiff t0.1 row ≤ adiff t0.1 r → adiff t0.2 q ≤ adiff t0.2 p →
               Good c tg row q := by
             intro row q h1 h2 t hT
             rw [huniq t hT]
-            have hmono : dist2 c t0.1 t0.2 row q ≤ dist2 c t0.1 t0.2 r p := planar_mono c hpl _ _ _ _ _ _ h1 h2
+            have hm' : dist2 c t0.1 t0.2 row q ≤ dist2 c t0.1 t0.2 r p := hmono row q h1 h2
             unfold withinMax at hw
             unfold ltOpt dT
             cases hm : c.max2x2 with
@@ -233,6 +252,18 @@ theorem single_target_exact (c : Cfg) (tg : Nat → Nat → Bool) (hpl : c.Plana
       obtain ⟨d, hd⟩ := hne
       rw [hl] at hd; cases hd
     · simp [hw]
+
+/-- the two planar metrics with positive coordinate steps: exact wherever within max_distance, NaN elsewhere -/
+theorem single_target_exact (c : Cfg) (tg : Nat → Nat → Bool) (hpl : c.Planar) (hsx : 0 < c.sx) (hsy : 0 < c.sy)
+    (t0 : Nat × Nat) (ht0 : tg t0.1 t0.2 = true ∧ t0.1 < c.H ∧ t0.2 < c.W)
+    (huniq : ∀ t : Nat × Nat, (tg t.1 t.2 = true ∧ t.1 < c.H ∧ t.2 < c.W) → t = t0)
+    (r p : Nat) (hr : r < c.H) (hp : p < c.W) :
+    proxAt (run c tg) r p =
+      (if withinMax c (dist2 c t0.1 t0.2 r p) then some (dist2 c t0.1 t0.2 r p) else none) ∧
+    proxAt (run c tg) r p = exactCut c tg r p :=
+  single_target_exact_partial c tg (planar_refl c hpl) t0 ht0 huniq r p hr hp
+    (planar_sep c hpl hsx hsy _ _ _ _)
+    (fun row q h1 h2 => planar_mono c hpl _ _ _ _ _ _ h1 h2)
 
 /-! ### small grids: the model is exact on every target layout -/
 
